@@ -77,6 +77,12 @@ class Comp:
                 if ta == 'queue':
                     return f'(Z.of_nat (length {a}))', 'Z'
                 self.err(e, f'len of {ta}')
+            if f == 'min' and len(e.args) == 2:
+                a, ta = self.expr(e.args[0])
+                b, tb = self.expr(e.args[1])
+                if ta == tb == 'Z':
+                    return f'(Z.min {a} {b})', 'Z'
+                self.err(e, 'min of non-integers')
             if f == 'self.rx_credits_needed' and not e.args:
                 rx, _ = self.expr(ast.parse('self.rx_credits', mode='eval').body)
                 return f'(src_needed max_credits threshold {rx})', 'Z'
@@ -347,6 +353,25 @@ def translate(repo: str):
     out.append('(* DLC.sink setter with a sink: every queued packet is handed over in order, the queue is cleared *)')
     out.append('Definition src_set_sink (queue : list (list Z)) : list Z * list (list Z) := (concat queue, []).')
     out.append('')
+
+    # ---- Multiplexer.acceptable_frame_size (fix D17i)
+    mux = next((n for n in tree.body if isinstance(n, ast.ClassDef) and n.name == 'Multiplexer'), None)
+    if mux is None:
+        raise TranslateError('class Multiplexer not found')
+    m = find_method(mux, 'acceptable_frame_size')
+    body = [s for s in m.body if not (isinstance(s, ast.Expr) and isinstance(s.value, ast.Constant))]
+    if not (len(body) == 1 and isinstance(body[0], ast.Return)):
+        raise TranslateError('Multiplexer.acceptable_frame_size: expected a single return')
+    c = Comp(where, {'max_frame_size': ('n', 'Z'), 'self.l2cap_channel.peer_mtu': ('peer_mtu', 'Z'),
+                     'RFCOMM_MAX_FRAME_SIZE': ('rfcomm_max_frame_size', 'Z'),
+                     'RFCOMM_MIN_FRAME_SIZE': ('rfcomm_min_frame_size', 'Z')})
+    out.append('(* Multiplexer.acceptable_frame_size *)')
+    out.append(f'Definition src_acceptable (n peer_mtu : Z) : bool :=\n  {c.truth(body[0].value)}.')
+    out.append('')
+    # the DLC's own frame size uses the same L2CAP overhead
+    init_src = u(find_method(cls, '__init__'))
+    if 'max_overhead = 4 + 1' not in init_src or 'self.multiplexer.l2cap_channel.peer_mtu - max_overhead' not in init_src:
+        raise TranslateError('DLC.__init__: mtu is no longer min(tx_max_frame_size, peer_mtu - (4 + 1))')
 
     # ---- constants used by the pre-sink queue
     init = find_method(cls, '__init__')
